@@ -211,10 +211,25 @@ def _binary_inverts(b, ba):
     d = packet.Packet(encoded_packet=txt)
     if not d.binary or d.packet_type != packet.MESSAGE or d.data != b:
         return fail(PROP, 'BINARY-B64-INVERT', 'decode(%r) -> %r/%r/%r' % (txt, d.binary, d.packet_type, d.data))
+    # the decoded packet is a packet like any other: encoding it again yields the form of the channel asked for
+    m = _reencode(d, b, txt, 'decode(%r)' % txt)
+    if m:
+        return m
     raw = bytearray(b) if ba else b
     d = packet.Packet(encoded_packet=raw)
     if not d.binary or d.packet_type != packet.MESSAGE or d.data != b or not isinstance(d.data, bytes):
         return fail(PROP, 'BINARY-RAW-INVERT', 'decode(%r) -> %r/%r/%r' % (raw, d.binary, d.packet_type, d.data))
+    return _reencode(d, b, txt, 'decode(%r)' % (raw,))
+
+
+def _reencode(d, b, txt, what):
+    for flags in ((True, False, True), (False, True, False)):
+        for f in flags:
+            e = d.encode(b64=f)
+            if f and e != txt:
+                return fail(PROP, 'BINARY-TEXT-CHANNEL', '%s, then encode(b64=True) = %r, want %r' % (what, e, txt))
+            if not f and (not isinstance(e, (bytes, bytearray)) or bytes(e) != b):
+                return fail(PROP, 'BINARY-RAW-CHANNEL', '%s, then encode(b64=False) = %r, want %r' % (what, e, b))
     return ''
 
 
@@ -262,6 +277,40 @@ def binary_inverts_table(k: int, ba: bool) -> str:
     post: _ == ''
     """
     return verdict(_binary_inverts(_B64_CONCRETE[k], ba))
+
+
+# texts the base64 library accepts although they are not the standard encoding of their bytes (line-wrapped, trailing
+# CRLF, non-zero trailing bits, surplus padding, embedded blanks)
+_B64_NONCANON = ('AQIDBB==', 'AQID\nBA==', 'AQIDBA==\r\n', 'AQIDBA====', 'AQ ID BA==', 'AQIDBA==', '', 'AA==\n', '/+8=', '/+9=')
+
+
+def _noncanon(k, first_b64):
+    import base64
+    s_ = _B64_NONCANON[k]
+    try:
+        want = base64.b64decode(s_)
+    except ValueError:
+        return ''
+    d = packet.Packet(encoded_packet='b' + s_)
+    if not d.binary or d.packet_type != packet.MESSAGE or d.data != want:
+        return fail(PROP, 'BINARY-B64-INVERT', 'decode(%r) -> %r/%r/%r want %r' % ('b' + s_, d.binary, d.packet_type, d.data, want))
+    txt = 'b' + ref_b64(want)
+    for f in ((True, False, True) if first_b64 else (False, True, True)):
+        e = d.encode(b64=f)
+        if f and e != txt:
+            return fail(PROP, 'BINARY-TEXT-CHANNEL', 'packet decoded from %r, encode(b64=True) = %r, want standard base64 %r' % ('b' + s_, e, txt))
+        if not f and bytes(e) != want:
+            return fail(PROP, 'BINARY-RAW-CHANNEL', 'packet decoded from %r, encode(b64=False) = %r, want %r' % ('b' + s_, e, want))
+    return ''
+
+
+@cond(quick=dict(timeout=60), thorough=dict(timeout=60))
+def binary_noncanonical_table(k: int, first_b64: bool) -> str:
+    """
+    pre: 0 <= k < len(_B64_NONCANON)
+    post: _ == ''
+    """
+    return verdict(_noncanon(k, first_b64))
 
 
 _SHAPES = 6
